@@ -138,12 +138,12 @@ class Impl(bfs.System):
                 return ("nothing",)
             self.app.orchestrator.waiting_for_results("waiter-of-another-task", ids)
             return ("waiting", len(ids))
-        if kind in ("poll", "poll2"):
+        if kind == "poll":
             r = op[1]
             before_q = dumps.queue(self.app, self.backend, self.ren)
             peers = self._peers()
             try:
-                got = list(self.app.orchestrator.get_invocations_to_run(2 if kind == "poll2" else 1, runner_ctx(r)))
+                got = list(self.app.orchestrator.get_invocations_to_run(op[2] if len(op) > 2 else 1, runner_ctx(r)))
             except Exception as e:  # noqa: BLE001
                 self.poll_errors += 1
                 what = type(e).__name__
@@ -236,7 +236,7 @@ class Impl(bfs.System):
             if len(ids) > 1:
                 paths = sorted({self._path(hist, i) for i in ids})
                 return f"two-running-same-key:{'+'.join(paths)}"
-        if op[0] in ("poll", "poll2"):
+        if op[0] == "poll":
             lp = self.last_poll
             if not lp["raised"]:
                 keys = [key_of(self.mode, *self.args[idx]) for idx in lp["got"]]
@@ -296,7 +296,7 @@ def alphabet(thorough: bool) -> list[tuple]:
            ("poll", "r1"), ("poll", "r2"), ("start", "r1"), ("start", "r2"), ("finish", "r1"), ("fail", "r1"),
            ("kill", "r1")]
     if thorough:
-        ops += [("submit", 1, 0), ("finish", "r2"), ("fail", "r2"), ("poll2", "r1"), ("waitall",)]
+        ops += [("submit", 1, 0), ("finish", "r2"), ("fail", "r2"), ("poll", "r1", 2), ("waitall",)]
     return ops
 
 
@@ -313,8 +313,8 @@ SEEDS = {
     "two-queued-same-key": [("submit", 0, 0), ("submit", 0, 0)],
     "two-waited-on-same-key": [("submit", 0, 0), ("submit", 0, 0), ("waitall",)],
 }
-SEED_EXTRA_OPS = {"two-queued-same-key": [("poll2", "r1"), ("poll2", "r2")],
-                  "two-waited-on-same-key": [("poll2", "r1"), ("poll2", "r2"), ("waitall",)]}
+SEED_EXTRA_OPS = {"two-queued-same-key": [("poll", "r1", 2), ("poll", "r2", 2)],
+                  "two-waited-on-same-key": [("poll", "r1", 2), ("poll", "r2", 2), ("waitall",)]}
 
 
 def _hist_unit(item: tuple) -> Partial:
